@@ -100,7 +100,7 @@ PROPS = {
 PROPS["C17"]["rule"] += (" C17W: WriteNext of every codec on a message of every size 0..700 (4200 thorough) and at 1023..65536 (2^17, 2^21+-1 "
                           "thorough) into a recording writer: the bytes must read back as that message with the specification's parser / be the "
                           "message, the caller's slice stays untouched, a refused Write is reported.")
-PROPS["C15"]["rule"] += " Every fifth grpc-timeout case is repeated on a mux with a stats handler and a unary interceptor (C15T <hex> s)."
+PROPS["C15"]["rule"] += " Every fifth grpc-timeout case is repeated on a mux with a stats handler and a unary interceptor (C15T <hex> s), another fifth on the gRPC-web entry (C15T <hex> w)."
 
 # per-property configuration may also live in lib/cfg_<id>.py (a module defining CFG = dict(...))
 import os as _os, glob as _glob, importlib.util as _ilu
